@@ -3,7 +3,7 @@ import itertools
 
 from compile_engine import Case, CompileEngine
 
-NAMES = ["Foo", "FOO", "foo", "Bar", "BAR", "Ba", "r#fn", "r#Type"]
+NAMES = ["Foo", "FOO", "foo", "Bar", "BAR", "Ba", "r#fn", "r#Type", "r#type", "Fn"]
 
 PRELUDE = r'''
 pub fn reference(names: &[&str], s: &str) -> Option<usize> {
@@ -136,6 +136,8 @@ def run(chk, tier):
     else:
         cases.append(enum_case("e%d" % len(cases), list(NAMES), 3))
         cases.append(enum_case("e%d" % len(cases), list(reversed(NAMES)), 3))
+    for sub in (["r#type", "r#Type", "TYPE"], ["r#fn", "Fn", "FN", "Foo"], ["r#type", "Type"]):
+        cases.append(enum_case("e%d" % len(cases), list(sub), maxlen))
     cases.append(enum_case("e%d" % len(cases), ["A", "Foo"], maxlen, enum_name="r#Type"))
     ne = len(cases)
     chk.part("enums", name_pool=NAMES, subset_sizes=list(sizes), programs=ne,
